@@ -64,6 +64,15 @@ def run(tier, seed):
                                  'kind': 'bounded native, exhaustive over the shipped library: each declared string / flag changed in place'})
             if badf:
                 pack.violation(name, {'bounded': True, 'inputs': badf, 'native_cmd': 'contracts/bounded_md5.py'})
+        from contracts import bounded_binding
+        name = 'C02/andes/system.py:System._load_calls;_expand_pycode/bounded:every-calls-slot-holds-the-object-of-the-model\'s-own-generated-module-named-for-it'
+        r = native_guard(pack, name, bounded_binding.run)
+        if r is not None:
+            nb, badb = r
+            pack.bounded.append({'function': 'System._load_calls / _expand_pycode (all shipped models)', 'slots_compared': nb, 'counted_as_proved': False,
+                                 'kind': 'bounded native, exhaustive over the shipped library: functions compared by name and code, tables by value'})
+            if badb:
+                pack.violation(name, {'bounded': True, 'inputs': badb, 'native_cmd': 'contracts/bounded_binding.py'})
     finally:
         shutil.rmtree(d, ignore_errors=True)
     return pack.finish()
